@@ -8,7 +8,7 @@
 
 use serde_json::json;
 
-use super::{corpus_units, sweep, CfgMode, Space};
+use super::{corpus_units, CfgMode, Space};
 use crate::explore::{hash64, Prop, Sink, Tier, Unit};
 use crate::fmt::{Cfg, Status};
 use crate::gen::{self, Layout};
@@ -116,11 +116,14 @@ impl Prop for C16 {
         "C16"
     }
     fn rule(&self) -> String {
-        "corpus A forms (k<=1) x contexts x layouts {L0,LALL,LNONE,LTABS} x widths; base forms x \
-         tab_spaces 1..8 x hard_tabs and deviation-1 configs; all single-token mutants of base atoms \
-         (delete/duplicate/swap/truncate/flip delimiter/non-ASCII insert); nesting ladders 1..32. \
-         distinct = distinct input text; non-trivial = input differs from every other input \
-         (dedup by bytes). Oracle: no panic escapes Session::format, worker process survives."
+        "corpus A forms (k<=1) x contexts x layouts {L0,LALL,LNONE,LTABS} x every width (quick tier, deviated \
+         configurations: every width up to 70 and every fifth above); base forms x tab_spaces 1..8 x hard_tabs and \
+         deviation-1 configs, error flags on (the report is rendered the way the binary prints it); all single-token \
+         mutants of base atoms (delete/duplicate/swap/truncate/flip delimiter/non-ASCII insert); nesting ladders to \
+         depth 16; 12 degenerate comments in every token gap of every base form; every comment content of <= 3 tokens \
+         over the markers the re-flow code looks for, one- and two-line, x 5 comment kinds x comment-rewriting options. \
+         distinct = distinct input text. Oracle: no panic escapes Session::format or the report renderer, the worker \
+         process survives, every unit ends within the time limit."
             .into()
     }
     fn assumptions(&self) -> Vec<String> {
@@ -374,7 +377,9 @@ impl Prop for C16 {
             }
             return;
         }
-        sweep(&u.text, &u.cfg, tier, |w, out, _same| {
+        // quick tier, deviated configurations: every width up to 70, every fifth above
+        let sparse = tier == Tier::Quick && !u.cfg.kv.is_empty();
+        super::sweep_where(&u.text, &u.cfg, tier, |w| !sparse || w <= 70 || w % 5 == 0, |w, out, _same| {
             if first {
                 first = false;
                 parsable = out.status == Status::Ok;
